@@ -8,6 +8,7 @@ import (
 	"encoding/json"
 	"fmt"
 	"math"
+	"math/big"
 	"os"
 	"sort"
 	"strconv"
@@ -110,6 +111,12 @@ func AbsString(name string) string {
 	}
 	return strings.Repeat("x", n)
 }
+
+// MakeRat returns the rational num/den. Precondition (the caller assumes it):
+// den > 0, num != 0 and gcd(num, den) = 1, so the value is already in normal
+// form; the engine builds the normal form directly instead of running Euclid's
+// algorithm on symbolic words.
+func MakeRat(num, den int64) *big.Rat { return big.NewRat(num, den) }
 
 func Choice(name string, n int) int { return int(u(next(name, "int"))) }
 func Concrete(x int) int            { return x }
